@@ -642,6 +642,46 @@ func (c *Ctx) NoNestedAcquisition(prop string) {
 		g, ok := u.X.(*ssa.Global)
 		return g, ok
 	}
+	// goroutines and channel waits below the dispatch exist only inside the validated fork/join helper (C03.O6): anything
+	// else that waits for another goroutine while key locks are held can wait forever (a cancelled feeder, a lost reply)
+	sc := c.ScatterHelper(rule)
+	inScatter := func(f *ssa.Function) bool {
+		for g := f; g != nil; g = g.Parent() {
+			if g == sc {
+				return true
+			}
+		}
+		// a collecting helper called only by the fork helper
+		return sc != nil && c.onlyCalledFrom(f, map[*ssa.Function]bool{sc: true}, 1)
+	}
+	for f := range pred {
+		if f.Blocks == nil || !prog.InModule(f) || inScatter(f) {
+			continue
+		}
+		for _, fb := range f.Blocks {
+			for _, ins := range fb.Instrs {
+				what := ""
+				switch x := ins.(type) {
+				case *ssa.Go:
+					what = "starts a goroutine"
+				case *ssa.Send:
+					what = "sends on a channel"
+				case *ssa.Select:
+					if x.Blocking {
+						what = "waits in a select"
+					}
+				case *ssa.UnOp:
+					if x.Op == token.ARROW {
+						what = "waits for a channel"
+					}
+				}
+				if what != "" {
+					bad = true
+					c.R.Fail(rule, Fn(f)+":goroutines", c.Pos(ins), "rule evaluation (which runs with key locks held) "+what+" outside the validated fork/join helper: if the other side never answers (a cancelled feeder, a worker that returned early) the request keeps its keys for ever and every later request queues behind it", "below the dispatch, goroutines and channel waits only inside the fork/join helper", PathTo(pred, f))
+				}
+			}
+		}
+	}
 	for f := range pred {
 		if f.Blocks == nil || !prog.InModule(f) {
 			continue
